@@ -72,7 +72,7 @@ prop("C13", ["TaRs.Props.C13"],
      explanation="exact half (theorem): accumulators equal the from-scratch window statistic after every stream of any length (SMA, WMA, SD, MAD, BB); float half (NOT a theorem): drift over 10^5..2·10^6-step runs measured on the implementation against double-double recomputation of the window.")
 prop("C14", ["TaRs.Props.C14"],
      explanation="L2: homogeneity/shift laws of the window statistics and their stream-level corollaries through the C01 theorems; bit-exactness for 2^k and 1e-9 otherwise are sampled on pairs of runs.")
-prop("C15", ["TaRs.Props.C15"],
+prop("C15", ["TaRs.Props.C15", "TaRs.Props.C15Exact"],
      explanation="L0 simulation identities: each composite run over a stream equals the documented combination of separately constructed public parts run over the same stream (Option-valued, panics compared too). BB.average vs SMA is the exact-arithmetic theorem pair of C01.")
 prop("C16", ["TaRs.Props.C16"],
      explanation="L0: verdict of build() for every setter sequence, getters return the last value, order irrelevance, NaN rejected under the IEEE hypothesis; all 10^5 lattice tuples enumerated on the implementation (exhaustive) and replayed on the model.")
